@@ -238,6 +238,9 @@ pub fn size_cases() -> Vec<CorpusCase> {
 
 fn input_tags(s: &str, extra: &[String]) -> Vec<String> {
     let mut t: Vec<String> = extra.to_vec();
+    if s.contains("<<''") || s.contains("<<\"\"") {
+        t.push("heredoc-empty-delimiter".into());
+    }
     if s.chars().filter(|c| c.is_ascii_digit()).count() >= 19 {
         t.push("huge-number".into());
     }
